@@ -134,7 +134,7 @@ def generate(tier, rng):
         nontriv = len(routes) > 1 or any(b":" in p for (p, _) in routes)
         cases.append(Case("c16-%d" % ti, lines, {"expect": exp, "nontrivial": nontriv}))
     # random larger tables over a richer alphabet
-    nrand = 150 if tier == "quick" else 3000
+    nrand = 1200 if tier == "quick" else 3000
     segs2 = [b"a", b"b", b"ab", b"hello", b":x", b":y", b":name", b":id"]
     for ri in range(nrand):
         routes = []
